@@ -200,6 +200,37 @@ def run(ctx):
     nouts = ctx.model.many([{**reqs[i], 'op': 'build_nm'} for i, _ in nm])
     for (i, spec), mo in zip(nm, nouts):
         check_name_mode(ctx, spec, root, f'n{i}', mo)
+    k8_witness(ctx, root)
+
+
+def k8_witness(ctx, root):
+    """finding K8 (Lean: `C08.k8_same_namespace_fails` / `k8_other_namespace_builds`): `p.json` uses `q.json as raw` and its task `down` takes
+    `raw::up`; mounted `as zz` the chain builds with the edge zz::raw::up -> zz::down, mounted `as raw` the reference is read as already
+    qualified and construction fails.  Model and implementation are compared on both; the failing one is reported as KNOWN-FINDING."""
+    spec = {'classes': {'K0': {'name': 'up', 'group': '', 'params': [], 'inputs': [], 'kind': 'json', 'run_args': []},
+                        'K1': {'name': 'down', 'group': '', 'params': [], 'inputs': [{'by': 'name', 'ref': 'raw::up'}], 'kind': 'json', 'run_args': [],
+                               'pull': ['raw::up'], 'in_kinds': {'raw::up': 'json'}}},
+            'files': {'q.json': {'tasks': ['K0']}, 'p.json': {'tasks': ['K1'], 'uses': ['@cfg/q.json as raw']},
+                      'main_zz.json': {'uses': ['@cfg/p.json as zz']}, 'main_raw.json': {'uses': ['@cfg/p.json as raw']},
+                      'main_ab.json': {'uses': ['@cfg/p.json as ra']}}, 'main': 'main_zz.json', 'module': builder.gen.fresh_modname()}
+    b = pl.materialize(spec, root / 'k8', modname=spec['module'])
+    b.module()
+    for main, outer in (('main_zz.json', 'zz'), ('main_ab.json', 'ra'), ('main_raw.json', 'raw')):
+        case = {'witness': 'K8', 'mounted_as': outer, 'inner_namespace': 'raw', 'input': 'raw::up'}
+        ctx.case(case)
+        chain, err = pl.build(b, root / 'k8' / 'data', main=main)
+        mo = ctx.model.one(builder.encode({**spec, 'main': main}, b))
+        if (chain is None) != ('error' in mo):
+            ctx.diverge('build:k8-witness', case, err or 'chain', mo.get('error', 'chain'))
+        if outer != 'raw':
+            if chain is None or not any(k.endswith('raw::up') for k in chain.tasks[f'{outer}::down'].input_tasks):
+                ctx.fail('a pipeline with an inner namespace does not build under an unrelated outer namespace', case, {'error': err})
+        elif chain is None:
+            ctx.fail('K8 witness: a by-name input that starts with the declaring namespace is not resolved inside that namespace', case,
+                     {'error': err, 'exists': 'raw::raw::up'}, known='K8')
+        else:
+            ctx.notes['K8'] = 'witness builds: finding K8 appears repaired'
+    b.cleanup_module()
 
 
 def search(ctx, divergences):
